@@ -1368,6 +1368,8 @@ class Interp:
             closure = tuple(st.frame['$meta'].get('closure', ()))
         else:
             closure = ()
+        if '$old' in st.ghost:
+            base['old'] = st.ghost['$old']
         base.update(env)
         st.push_frame(base, {'module': '$spec', 'cls': None, 'qual': '<spec>', 'closure': closure})
         try:
